@@ -42,10 +42,16 @@ class _Sub(ast.NodeTransformer):
 
 
 class _Truthy(ast.NodeTransformer):
-    """`a if x else b` with a bare name as the test: a number is true iff it is not 0"""
+    """`a if x else b` with a bare name as the test: a number is true iff it is not 0;
+    `a if x is not None else b`: a (the section translates the case where a number was given)"""
 
     def visit_IfExp(self, node):
         self.generic_visit(node)
+        t = node.test
+        if isinstance(t, ast.Compare) and len(t.ops) == 1 and isinstance(t.ops[0], ast.IsNot) \
+                and isinstance(t.left, ast.Name) and isinstance(t.comparators[0], ast.Constant) \
+                and t.comparators[0].value is None:
+            return node.body        # the translated case is the one where a number was given
         if isinstance(node.test, ast.Name):
             node.test = ast.Compare(left=node.test, ops=[ast.NotEq()],
                                     comparators=[ast.Constant(value=0)])
